@@ -1,7 +1,8 @@
 (* C08 — property theorems only.  Statements are full; proofs are [exact lemma] (plus instantiation glue). *)
 From Coq Require Import String List NArith ZArith Bool.
 From LE Require Import Codec.Varint Codec.VarintProofs Codec.Reader Codec.Writer Codec.ReaderProofs
-                       Codec.Schema Codec.SchemaProofs Codec.SchemaProofs2 Codec.CanonProofs Gen.Schemas.
+                       Codec.Schema Codec.SchemaProofs Codec.SchemaProofs2 Codec.CanonProofs Gen.Schemas
+                       Codec.Lisk32 Codec.Lisk32Conv Codec.Lisk32Poly Codec.Lisk32Proofs.
 Import ListNotations.
 Local Open Scope N_scope.
 
@@ -115,6 +116,26 @@ Theorem C08_generated_sequences_agree :
 Proof. exact seqs_agree. Qed.
 Theorem C08_generated_env_wf : wf_env schemas_env = true.
 Proof. exact env_wf. Qed.
+
+(* ---- Lisk32 ---- *)
+(* every 20-byte address converts to a 41-character text starting with "lsk" that converts back to the same bytes *)
+Theorem C08_lisk32_bytes_text_bytes : forall bs, List.length bs = 20%nat -> Forall (fun v => v < 256) bs ->
+  exists t, bytes_to_lisk32 bs = L32Ok t /\ List.length t = 41%nat /\ firstn 3 t = lsk /\ lisk32_to_bytes t = L32Ok bs.
+Proof. exact bytes_text_bytes. Qed.
+(* every accepted (non-empty) text converts to 20 bytes that convert back to the same text *)
+Theorem C08_lisk32_text_bytes_text : forall t bs, t <> [] -> lisk32_to_bytes t = L32Ok bs ->
+  List.length bs = 20%nat /\ bytes_to_lisk32 bs = L32Ok t.
+Proof. exact text_bytes_text. Qed.
+(* the checksum appended by createChecksum always verifies, and a text whose checksum does not verify is rejected *)
+Theorem C08_lisk32_checksum_valid : forall u5, Forall (fun v => v < 32) u5 -> polymod (u5 ++ create_checksum u5) = 1.
+Proof. exact checksum_valid. Qed.
+Theorem C08_lisk32_bad_checksum_rejected : forall t idx, List.length t = 41%nat -> firstn 3 t = lsk ->
+  indices (skipn 3 t) = Some idx -> polymod idx <> 1 -> lisk32_to_bytes t = L32Err L32Checksum.
+Proof. exact bad_checksum_rejected. Qed.
+(* the bit regrouping of convertUIntArray is lossless in both directions *)
+Theorem C08_lisk32_convert_8_5_8 : forall bs, List.length bs = 20%nat -> Forall (fun v => v < 256) bs ->
+  List.length (convert 8 5 bs) = 32%nat /\ Forall (fun v => v < 32) (convert 8 5 bs) /\ convert 5 8 (convert 8 5 bs) = bs.
+Proof. exact convert_8_5_8. Qed.
 
 (* ---- refutations kept honest ---- *)
 Definition id_strops : strops := {| utf8_valid := fun _ => true; is_nfc := fun _ => true; nfc_norm := fun s => s |}.
